@@ -76,12 +76,20 @@ func runC102(cw *caseWriter, tier string, seed uint64, which uint64) {
 
 // property monitors on what the real servers did (C02 / C03 / C05), after every op
 func c102monitor(cw *caseWriter, tag string, in []uint64, obs []uint64) {
+	c102monitorS(cw, tag, in, obs, false)
+}
+
+// snap: component 103 (input starts with TrailingLogs; per server the newest snapshot follows the nextIndex list)
+func c102monitorS(cw *caseWriter, tag string, in []uint64, obs []uint64, snap bool) {
+	if snap {
+		in = in[1:]
+	}
 	n := int(in[0])
 	type ent struct{ term, ty, data uint64 }
 	type node struct {
-		role, term, last, commit, applied uint64
-		fsm                               []uint64
-		log                               map[uint64]ent
+		role, term, last, commit, applied, snapIdx uint64
+		fsm                                        []uint64
+		log                                        map[uint64]ent
 	}
 	nops := 0
 	for q := 1 + n; q < len(in); {
@@ -125,9 +133,14 @@ func c102monitor(cw *caseWriter, tag string, in []uint64, obs []uint64) {
 				p += 4
 			}
 			p += 1 + int(obs[p]) // a leader's nextIndex per peer
+			if snap {
+				nd.snapIdx = obs[p]
+				p += 2
+			}
 			nodes[i] = nd
 			maxCommit = max(maxCommit, nd.commit)
-			if nd.applied > nd.commit || nd.commit > nd.last {
+			// (after a restart lastApplied is the restored snapshot's index while the volatile commit index starts at 0 again)
+			if (nd.applied > nd.commit && nd.applied > nd.snapIdx) || nd.commit > max(nd.last, nd.snapIdx) {
 				cw.monitor("C05", tag, "commit-index-outside-applied-and-last", "step %d server %d: applied %d commit %d last %d", step, i+1, nd.applied, nd.commit, nd.last)
 			}
 		}
@@ -159,7 +172,7 @@ func c102monitor(cw *caseWriter, tag string, in []uint64, obs []uint64) {
 					cw.monitor("C03", tag, "acknowledged-entry-replaced", "step %d: Apply of payload %d was acknowledged at index %d; server %d knows that index committed with %v", step, ak[1], ak[0], i+1, e)
 					cw.monitor("C08", tag, "acknowledged-entry-replaced", "step %d: Apply of payload %d was acknowledged at index %d; server %d knows that index committed with %v", step, ak[1], ak[0], i+1, e)
 				}
-				if nd.role == 2 && nd.term == topTerm && (!ok || e.ty != 0 || e.data != ak[1]) {
+				if nd.role == 2 && nd.term == topTerm && ak[0] > nd.snapIdx && (!ok || e.ty != 0 || e.data != ak[1]) {
 					cw.monitor("C03", tag, "leader-lacks-acknowledged-entry", "step %d: Apply of payload %d was acknowledged at index %d; leader %d of term %d holds %v (present %v)", step, ak[1], ak[0], i+1, nd.term, e, ok)
 				}
 			}
@@ -192,7 +205,7 @@ func c102monitor(cw *caseWriter, tag string, in []uint64, obs []uint64) {
 					for i := uint64(1); i <= A.commit; i++ {
 						ea, oka := A.log[i]
 						eb, okb := B.log[i]
-						if oka && (!okb || ea != eb) {
+						if oka && i > B.snapIdx && (!okb || ea != eb) {
 							cw.monitor("C03", tag, "leader-lacks-committed-entry", "step %d: server %d (term %d) knows index %d committed as %v; leader %d of term %d holds %v (present %v)", step, a+1, A.term, i, ea, b+1, B.term, eb, okb)
 							break
 						}
@@ -204,4 +217,61 @@ func c102monitor(cw *caseWriter, tag string, in []uint64, obs []uint64) {
 	if maxCommit > 1 {
 		cw.stats["c102_scripts_with_commits"]++
 	}
+}
+
+// component 103 — component 102 plus takeSnapshot at any server (op 11) with a small TrailingLogs, compared with
+// Model/ClusterCommit.v run_clustersnap (cstep true): snapshots and compaction inside the composed system
+func c103Batch() {
+	evAlone = true
+	sc := bufio.NewScanner(os.Stdin)
+	w := bufio.NewWriter(os.Stdout)
+	defer w.Flush()
+	for sc.Scan() {
+		f := strings.Fields(sc.Text())
+		if len(f) != 2 {
+			continue
+		}
+		subseed, _ := strconv.ParseUint(f[1], 10, 64)
+		sub := &rng{s: subseed}
+		n := 2 + sub.intn(4)
+		steps := 60 + sub.intn(80)
+		trail := uint64(1 + sub.intn(4)) // TrailingLogs 0..3
+		in, obs, leaders := c101GenT(sub, n, steps, true, trail)
+		fmt.Fprintf(w, "%s %d %d", f[0], leaders, len(in))
+		for _, x := range in {
+			fmt.Fprintf(w, " %d", x)
+		}
+		fmt.Fprintf(w, " %d", len(obs))
+		for _, x := range obs {
+			fmt.Fprintf(w, " %d", x)
+		}
+		fmt.Fprintln(w)
+	}
+	fmt.Fprintf(w, "#fallbacks %d\n", evFallbacks)
+}
+
+func runC103(cw *caseWriter, tier string, seed uint64, which uint64) {
+	r := &rng{s: (seed*5+which)*32452843 + 7}
+	count := 60
+	if tier != "quick" {
+		count = 1000
+	}
+	evBatches(cw, "c103batch", "s", 103, count, r, "c103", func(tag string, in, obs []uint64) {
+		c102monitorS(cw, tag, in, obs, true)
+		// how many snapshots were taken with effect
+		for q := 2 + int(in[1]); q < len(in); {
+			if in[q] == 99 {
+				q++
+				continue
+			}
+			l := lgOpLen[in[q]]
+			if l == 0 {
+				break
+			}
+			if in[q] == 11 {
+				cw.stats["c103_snapshot_ops"]++
+			}
+			q += l
+		}
+	})
 }
